@@ -43,7 +43,9 @@
 EXTENDS DpkgVersionMC
 
 CONSTANTS StaleKey, NoResplit,
-          Boundary        \* TRUE: also the boundary-moving assignment values
+          Boundary,       \* TRUE: also the boundary-moving assignment values
+          MaxFull         \* longest string an object may reach (a revision "x-0" assigned again and
+                          \* again would push one more "-x" into the upstream part each time)
 
 VARIABLES ck1, ck2
 ovars == <<v1, v2, v3, out, ck1, ck2>>
@@ -58,16 +60,22 @@ InfoFromParts(e, u, rv) ==
      c |-> <<SkipZeros(e), CanonPart(u), CanonPart(rv)>>,
      k |-> <<StrInt(OrZero(e)), IKeyPart(OrZero(u)), IKeyPart(OrZero(rv))>>]
 
+\* every string an object can reach: the in-domain strings of at most MaxFull characters over the
+\* model characters and the two separators; InfoAll is the constant table of what is derived from
+\* each of them (computed once)
+DomStrs == {s \in UNION {[1..n -> UpChars \cup {Colon, Hyphen}] : n \in 1..MaxFull} : InDomain(s)}
+InfoAll == TLCEval([s \in DomStrs |-> Info(s)])
+
 \* what comparing object (f1, c1) with object (f2, c2) answers / should answer
 Observe(f1, c1, f2, c2) ==
-    [NoRes EXCEPT !.ref  = DpkgCmp(f1, f2),
-                  !.rev  = DpkgCmp(f2, f1),
+    [NoRes EXCEPT !.ref  = CmpParsed(InfoAll[f1].p, InfoAll[f2].p),       \* = DpkgCmp(f1, f2)
+                  !.rev  = CmpParsed(InfoAll[f2].p, InfoAll[f1].p),
                   !.impl = ICmpPrepared(c1.i, c2.i),
                   !.ceq  = (c1.c = c2.c),
                   !.keq  = (c1.k = c2.k)]
 
 OInit == /\ v1 \in Vers /\ v2 \in Vers /\ v3 = None
-         /\ ck1 = InfoOf[v1] /\ ck2 = InfoOf[v2]
+         /\ ck1 = InfoAll[v1] /\ ck2 = InfoAll[v2]
          /\ out = Observe(v1, ck1, v2, ck2)
 
 \* full-string assignments are sampled with EmitStride, the (rarer) component assignments 4 x denser
@@ -76,14 +84,14 @@ DenseStride == (EmitStride + 3) \div 4
 
 \* object 1 is assigned; s is the string it then prints, newkey what a correct implementation holds
 Assign(how, arg, s, lazykey) ==
-    /\ InDomain(s)
+    /\ s \in DomStrs                       \* in the domain D2 and at most MaxFull characters
     /\ v1' = s
-    /\ ck1' = IF StaleKey THEN ck1 ELSE IF NoResplit THEN lazykey ELSE Info(s)
+    /\ ck1' = IF StaleKey THEN ck1 ELSE IF NoResplit THEN lazykey ELSE InfoAll[s]
     /\ out' = Observe(s, ck1', v2, ck2)
     /\ UNCHANGED <<v2, v3, ck2>>
     /\ (SelectedMut(s, IF how = "full" THEN EmitStride ELSE DenseStride) =>
-          PrintT(<<"MUT", ToJson(<<v1, v2, how, arg, s, out.ref, out.rev, Canon(v1) = Canon(v2),
-                                   out'.ref, out'.rev, Canon(s) = Canon(v2)>>)>>))
+          PrintT(<<"MUT", ToJson(<<v1, v2, how, arg, s, out.ref, out.rev, InfoAll[v1].c = InfoAll[v2].c,
+                                   out'.ref, out'.rev, InfoAll[s].c = InfoAll[v2].c>>)>>))
 
 \* the components the object holds (= the decomposition of v1 when the key is fresh)
 P1 == ck1.p
@@ -94,7 +102,7 @@ UpsB  == IF Boundary THEN {x \o <<Hyphen>> \o y : x, y \in One} \cup
          ELSE {}
 RevsB == IF Boundary THEN {x \o <<Hyphen, Zero>> : x \in One} ELSE {}
 
-AssignFull     == \E s \in Vers : Assign("full", s, s, Info(s))
+AssignFull     == \E s \in Vers : Assign("full", s, s, InfoAll[s])
 AssignEpoch    == \E e \in Epochs :
                      Assign("epoch", e, Join(e, P1.u, P1.r), InfoFromParts(e, P1.u, P1.r))
 AssignUpstream == \E u \in Ups(<<>>, <<>>) \cup UpsB :
@@ -105,6 +113,6 @@ AssignRevision == \E rv \in Revs \cup RevsB :
 ONext == AssignFull \/ AssignEpoch \/ AssignUpstream \/ AssignRevision
 OSpec == OInit /\ [][ONext]_ovars
 
-KeyFresh == ck1 = Info(v1) /\ ck2 = Info(v2)
+KeyFresh == ck1 = InfoAll[v1] /\ ck2 = InfoAll[v2]
 \* Agree, Antisym, HashConsistent, HashImpl: as defined in DpkgVersionMC, over out
 =============================================================================
